@@ -138,7 +138,7 @@ static void do_k(char *p)
 
 /* N qtype id destfam dest4hex nsip4hex qnamehex : a query through the real tunnel_dns (NS, A for
  * ns./www., anything else); prints every datagram the server emits.  destfam 0: no destination
- * address known, 4: IPv4 destination dest4hex; nsip4hex "-": -n not given. */
+ * address known, 4: IPv4 destination dest4hex, 6: IPv6 destination (16 bytes: the query came in on the IPv6 socket); nsip4hex "-": -n not given. */
 static void do_n(char *p)
 {
 	struct query q;
@@ -167,6 +167,10 @@ static void do_n(char *p)
 	if (fam == 4 && unhex(dest, ip) == 4) {
 		inj_dest_family = 4;
 		memcpy(inj_dest4, ip, 4);
+	}
+	if (fam == 6 && unhex(dest, ip) == 16) {
+		inj_dest_family = 6;
+		memcpy(inj_dest6, ip, 16);
 	}
 	if (nsip[0] != '-' && unhex(nsip, ip) == 4)
 		srv_set_ns_ip(ip);
